@@ -31,6 +31,10 @@ class TabularProblem(Problem):
         self._rew = jnp.array(t["rew"], dtype=jnp.int32) if t.get("intrew") else jnp.array(t["rew"])
         self._prob = jnp.array(t["prob"])
         self._init = None if t.get("init") is None else jnp.array(t["init"])
+        if self._init is not None and t.get("init_dtype", "float64") != "float64":
+            cast = np.asarray(t["init"]).astype(t["init_dtype"])
+            if np.array_equal(cast.astype(float), np.asarray(t["init"], dtype=float)):     # only when exactly representable
+                self._init = jnp.array(cast)
         self._ipol = None if t.get("ipol") is None else jnp.array(t["ipol"], dtype=jnp.int32)
         super().__init__()
 
@@ -67,7 +71,7 @@ class TabularProblem(Problem):
 
     def initial_value(self, state):
         if self._init is None:
-            return 0.0
+            return 0 if self._t.get("init_dtype") == "int32" else 0.0
         return self._init[self.state_to_index(state)]
 
     def initial_policy(self, state):
